@@ -1,6 +1,13 @@
 SPECIFICATION Spec
 CONSTANTS
   Guards <- MCGuards
+  MaxRows <- MCMaxRows
+  MaxBurst <- MCMaxBurst
+  MaxSteps <- MCMaxSteps
+  Touch <- MCTouch
+  KeysA <- MCKeysA
+  MouseA <- MCMouseA
+  BtnOn <- MCBtnOn
 INVARIANT Inv
 INVARIANT Replay
 PROPERTY ViewOnly
